@@ -220,6 +220,16 @@ def load_findings():
     return out
 
 
+SKIPS = {}
+
+
+def note_skip(where, exc=None):
+    """a case a check could not evaluate (its own generator or the library raised where the check has no opinion): counted into the evidence
+    (histogram key `skipped:<where>:<exception>`), so that silent loss of coverage shows"""
+    k = 'skipped:%s:%s' % (where, type(exc).__name__ if exc is not None else '-')
+    SKIPS[k] = SKIPS.get(k, 0) + 1
+
+
 def finish(ctx, level_obligations, checker_cmd):
     """classify violations, print verdict lines, write evidence, return exit code"""
     findings = [f for f in load_findings() if f.get('property') == ctx.pid]
@@ -255,6 +265,8 @@ def finish(ctx, level_obligations, checker_cmd):
                            seed=ctx.seed, tier=ctx.tier), f, indent=1, default=str)
         print('VIOLATION property=%s replay=%s%s' % (ctx.pid, path, '' if v['found_input'] else ' no-failing-input-found'))
         print('  ' + v['what'][:600])
+    for k, v in SKIPS.items():
+        ctx.hist[k] = ctx.hist.get(k, 0) + v
     obligations, discharged = level_obligations
     ev = dict(
         property_id=ctx.pid, tier=ctx.tier, seed=ctx.seed, level='proof',
